@@ -37,6 +37,16 @@ pub type BatchItem = Item;                            // writer.rs: `use crate::
 //@contract-file fn/writer_persist.c
 //@end
 
+// the flush worker asks for the journal position (worker_tick, Flush branch, under the journal lock) right before it turns a sealed
+// memtable into a table: seeking the buffered writer is what pushes every record still in the user-space buffer to the OS first,
+// so that -- also with manual_journal_persist -- a process crash never finds part of a batch in a table and the rest nowhere
+//@extract src/journal/writer.rs :: Writer :: pos props=C03+C02
+//@contract
+    requires old(self).wf(),
+    ensures final(self).wf(), final(self).file.logical() == old(self).file.logical(), final(self).file.inner.synced@ == old(self).file.inner.synced@,
+        r is Ok ==> final(self).file.buffered@.len() == 0, // [C03:journal-position-query-pushes-the-write-buffer-to-the-os] [C02:journal-position-query-pushes-the-write-buffer-to-the-os]
+//@end
+
 //@extract src/journal/writer.rs :: Writer :: rotate as=rotate_sync_first until=self.persist( props=C09+C02
 //@contract
     requires old(self).wf(),
